@@ -34,7 +34,7 @@ P = {
     "theorems": ["C20_load_meets_spec", "C20_env_order_independent", "C20_env_wins_per_leaf", "C20_defaults_fill",
                  "C20_file_env_equivalent", "C20_file_env_equivalent_splits", "C20_env_name_read_back", "C20_merge_later_wins_no_panic", "C20_merge_panic_iff", "C20_in_scope_b_sound",
                  "C20_domain_nonvacuous", "C20_split_example", "C20_schema_loader_agree",
-                 "C20_F1_refuted", "C20_F1_rows_all_disagree", "C20_F3_refuted", "C20_F4_refuted"],
+                 "C20_F1_refuted", "C20_F1_rows_all_disagree", "C20_F3_pinned_refuted", "C20_F3_repaired_on_witness", "C20_F4_refuted"],
     "streams": [{
         "name": "tree", "pkg": "./internal/config/parser", "test": "TestVerifC20",
         "overlay": {"internal/config/parser/zz_verif_c20_test.go": "c20/c20_tree_test.go"},
@@ -66,7 +66,8 @@ P = {
                   "(env.go convert/cleanSuffix/koanfFromEnv, merge.go, configloader.go Load, with koanf's env provider, "
                   "maps.Unflatten and merge-function Load): for all defaults, file trees and environments of the property's domain "
                   "(scalar values, well-formed names, no two variables for one leaf, all sources agreeing on the shape at every "
-                  "path) outside the shapes of the open findings C20-F3/C20-F4, and for every iteration order of every Go map on "
+                  "path) outside the shape of the open finding C20-F4 (and, for the code before the repair 0f39207 only, of C20-F3: "
+                  "the theorems are parametric in `fix3`, /repo is `fix3 = true`), and for every iteration order of every Go map on "
                   "the way, the loaded tree shows at every path the environment's node if there is one, else the file's, else "
                   "the default's (C20_load_meets_spec); corollaries: independence of the enumeration order, environment wins per "
                   "leaf, defaults fill, file/environment equivalence for every (file, environment) pair that together shows the "
@@ -76,16 +77,18 @@ P = {
                   "clash reached through nodes of equal kind and otherwise shows later-wins per leaf; the evaluator's finite "
                   "domain check is proved sound for the theorems' domain.  The schema/loader agreement is a finite vm_compute statement over tables regenerated on every run from "
                   "schema/config.schema.json and the loader's type registries/config structs, with the 10 disagreeing rows recorded "
-                  "as C20-F1.  The model is tied to the code by running both on ~1200 (quick) / 30000 (thorough) generated loads per "
-                  "run (every observed outcome over 6-30 repetitions must be an outcome of the model for some iteration order) and "
+                  "as C20-F1 in two groups (F1a schema wrong, F1b loader does not validate), each with its own repair flag.  The model is tied to the code by running both on ~1200 (quick) / 30000 (thorough) generated loads per "
+                  "run, now ~1000 quick (every observed outcome over 6-30 repetitions must be an outcome of the model for some iteration order) and "
                   "by replaying ~60 table-derived probes through the real schema validator and the real mechanism loader.",
     "level_note": "Trusted: Coq kernel/vm_compute; the correspondence harness (generators, decode-hook capture of the merged tree, "
                   "Gallina rendering); YAML scalar typing is an oracle (observed per case); the sha256 key suffix is modelled by its "
                   "pre-image; mapstructure decoding into the Configuration struct is not modelled (the observable is the tree handed "
                   "to the decoder); the translation of the JSON schema and of the Go config structs into the tables "
                   "(harness/tools/schema, go/ast + python) is trusted and cross-checked by the dynamic probes.  Open findings: "
-                  "C20-F1 (schema/loader disagreements), C20-F3 (cleanSuffix drops all but one variable of a nested list), "
-                  "C20-F4 (nested structure inside a list element stays a flat dotted key); candidate repairs for F3/F4 in fixes/.",
+                  "C20-F1 (schema/loader disagreements; candidate repairs fixes/C20-F1a.diff, fixes/C20-F1b.diff), "
+                  "C20-F4 (nested structure inside a list element stays a flat dotted key; fixes/C20-F4.diff not applicable because it "
+                  "edits a repo unit test that pins the flat key).  Fixed: C20-F3 (0f39207), general theorem proved for the repaired "
+                  "code; the pinned old behaviour is C20_F3_pinned_refuted.",
     "assumptions": ["names and values are in the modelled domain: key segments contain no '.' or '#', list indices <= 2^20, "
                     "ASCII names (strings.ToLower is modelled on ASCII)",
                     "the schema stream needs a minimal valid configuration per mechanism type (harness/tools/schema/gen.py BASE); "
